@@ -37,7 +37,7 @@ PROPS.update({
         "technique": "Lean 4 invariant proofs (FIFO log, id freshness, rejection) by induction over label sequences + correspondence + Lean monitors on real traces",
         "extra": ["stress"],
         "monitors": ["C01"],
-        "corr": corr(["burst", "mixed", "handles", "timeouts"]),
+        "corr": corr(["shutdown", "burst", "mixed", "handles", "timeouts"]),
         "extract_items": ["ask_wait_watches_closed"],
         "assumptions": COMMON_ASSUME,
     },
@@ -48,7 +48,7 @@ PROPS.update({
         "technique": "Lean 4 invariant proof (mailbox = suffix of acceptance log) + correspondence + Lean monitors on real traces",
         "extra": ["stress"],
         "monitors": ["C02"],
-        "corr": corr(["burst", "mixed", "timeouts"]),
+        "corr": corr(["shutdown", "burst", "mixed", "timeouts"]),
         "extract_items": [],
         "assumptions": COMMON_ASSUME,
     },
@@ -69,7 +69,7 @@ PROPS.update({
         "note": PROOF_NOTE,
         "technique": "Lean 4 fold-invariant proof over label sequences + correspondence on captured tracing dead-letter events",
         "monitors": ["C13"],
-        "corr": corr(["timeouts", "burst", "mixed", "handles"]),
+        "corr": corr(["shutdown", "timeouts", "burst", "mixed", "handles"]),
         "extract_items": [],
         "assumptions": COMMON_ASSUME + ["dead-letter operation labels are compared by family (tell/ask), DESIGN.md §7/C13"],
     },
@@ -82,7 +82,7 @@ PROPS.update({
         "note": PROOF_NOTE,
         "technique": "Lean 4 fold-invariant proofs (lifecycle automaton, kill fold, result summary) over label sequences + correspondence + Lean monitors on real traces",
         "monitors": ["C04"],
-        "corr": corr(["mixed", "burst", "idle", "handles"]),
+        "corr": corr(["shutdown", "mixed", "burst", "idle", "handles"]),
         "extract_items": [],
         "assumptions": COMMON_ASSUME,
     },
@@ -93,7 +93,7 @@ PROPS.update({
         "technique": "Lean 4 invariant proof + theorems on translated accessor functions + exhaustive differential test of the translation",
         "monitors": ["C05"],
         "extra": ["tables"],
-        "corr": corr(["mixed", "idle", "burst"]),
+        "corr": corr(["shutdown", "mixed", "idle", "burst"]),
         "extract_items": ["FailurePhase", "ActorResult"],
         "assumptions": COMMON_ASSUME,
     },
@@ -107,7 +107,7 @@ PROPS.update({
         "technique": "Lean 4 invariant proofs + progress theorem over label sequences + extraction of the reply-wait protocol + correspondence",
         "extra": ["stress"],
         "monitors": ["C03"],
-        "corr": corr(["burst", "mixed", "handles", "timeouts"]),
+        "corr": corr(["shutdown", "burst", "mixed", "handles", "timeouts"]),
         "extract_items": ["ask_wait_watches_closed"],
         "assumptions": COMMON_ASSUME + ["Sender::closed() completes once the receiver is closed or dropped"],
     },
@@ -118,7 +118,7 @@ PROPS.update({
         "technique": "Lean 4 fold-invariant proof (budget argument over the split select) + correspondence + Lean monitors on real traces",
         "extra": ["stress"],
         "monitors": ["C06"],
-        "corr": corr(["burst", "mixed", "idle"]),
+        "corr": corr(["shutdown", "burst", "mixed", "idle"]),
         "extract_items": [],
         "assumptions": COMMON_ASSUME,
     },
@@ -131,7 +131,7 @@ PROPS.update({
         "note": PROOF_NOTE + " Liveness (the JoinHandle eventually resolves) is stated as progress lemmas plus the settled-trace monitor, not as a temporal theorem.",
         "technique": "Lean 4 case-analysis theorems on the step function + correspondence on handle histories + Lean monitors on settled real traces",
         "monitors": ["C07", "C01", "C02"],
-        "corr": corr(["handles", "mixed", "burst", "timeouts"]),
+        "corr": corr(["shutdown", "handles", "mixed", "burst", "timeouts"]),
         "extract_items": ["lifecycle", "send_paths", "handle_algebra"],
         "assumptions": COMMON_ASSUME + ["the two sender counts of an ActorRef are treated as one (both closure arms are on_stop(false); break - shape lemma lifecycle_arms)"],
     },
@@ -142,6 +142,7 @@ PROPS.update({
         "technique": "Lean 4 fold-invariant proof + extraction of the select! shape + correspondence with cancel-and-restart of on_run futures",
         "monitors": ["C08"],
         "corr": corr(["idle", "mixed", "burst"]),
+        "extra": ["stress"],
         "extract_items": ["lifecycle"],
         "assumptions": COMMON_ASSUME,
     },
@@ -166,7 +167,7 @@ PROPS.update({
         "technique": "Lean 4 theorems on the actor model and on the wait-for protocol model + replay of real multi-actor histories on the model",
         "monitors": ["C03", "C04", "C05", "C13"],
         "extra": ["netcorr"],
-        "corr": corr(["mixed", "burst", "idle"]),
+        "corr": corr(["shutdown", "mixed", "burst", "idle"]),
         "extract_items": ["ask_protocol", "lifecycle"],
         "assumptions": COMMON_ASSUME + ["a panic unwinds only the panicking task (Tokio)"],
     },
